@@ -247,6 +247,15 @@ func runC05(c *Ctx) {
 		}
 		c.Call(Event{"op": "ShortKeyString", "key": ints(kb)})
 	}
+	// a parsed key printed, moved to another network, printed and parsed again: the text always describes the key as it is
+	for k := 0; k < c.Pick(8, 60); k++ {
+		net := 1 + k%len(nets)
+		other := 1 + (k+1+k/len(nets))%len(nets)
+		calls := []Event{hdCfg(), {"op": "NewMaster", "dst": 1, "seed": ints(randBytes(r, 32)), "net": net}, {"op": "Child", "src": 1, "dst": 2, "idx": w32(uint32(k))},
+			{"op": "Reparse", "src": 2, "dst": 3}, {"op": "SetNet", "src": 3, "net": other}, {"op": "Reparse", "src": 3, "dst": 4}, {"op": "Child", "src": 4, "dst": 5, "idx": w32(1 << 31)},
+			{"op": "Neuter", "src": 3, "dst": 6}, {"op": "SetNet", "src": 6, "net": net}, {"op": "Reparse", "src": 6, "dst": 7}, {"op": "Child", "src": 7, "dst": 8, "idx": w32(2)}}
+		c.Run(resolveReparse(calls))
+	}
 	secN := secN.Bytes()
 	for k := 0; k < c.Pick(3, 8); k++ {
 		// base keys: master, hardened child, public child
